@@ -25,12 +25,16 @@ void dtor_cb(void *v) {
     if (!is_cell(v)) VIOL("C12", "C12:dtor-foreign-pointer", "destructor called with a pointer that was never stored");
     D->dlog.push_back(cell_id(v));
 }
+// key-style comparator ("first parameter is userdata, second is list data"): the first argument is read
+// as a lookup key, the second as an element, so it is NOT reflexive on element pointers - matching by the
+// stored pointer itself has to work on its own.
+long cmp_key(long data) { return data % D->cmp_mod; }
+long cmp_elem(long elem) { return (elem / 3) % D->cmp_mod; }
 int list_cmp(void *a, void *b) {
-    long x = cell_id(a) % D->cmp_mod, y = cell_id(b) % D->cmp_mod;
-    return (int)(x - y);
+    return (int)(cmp_key(cell_id(a)) - cmp_elem(cell_id(b)));
 }
 bool list_match(long data, long elem) {
-    return (D->has_cmp && (data % D->cmp_mod) == (elem % D->cmp_mod)) || data == elem;
+    return (D->has_cmp && cmp_key(data) == cmp_elem(elem)) || data == elem;
 }
 
 const char *kname() { return D->kind == K_QUEUE ? "queue" : D->kind == K_STACK ? "stack" : "list"; }
